@@ -737,6 +737,7 @@ def ctl_h(name, desc, tier="quick", ilen=16, p=1, timeout=3000, mem=8, **params)
 def _c09():
     hs = [ctl_h("c09::configure_a1", "Sign::configure as Max3000Dash30x7 (any address) against a conformant sign with a symbolic first-hello state: reset dance, then request acked before the chunk, chunk = the 16-byte block at offset 0, count 1, query; first transfer attempt only", op="configure", attempts=1),
           ctl_h("c09::configure_all_types", "Sign::configure (any address, any supported type) against a conformant sign whose first-hello state and per-attempt result (received/failed) are symbolic: request acked before the chunk, chunk = the type's 16-byte block at offset 0, count = chunks since the request, then the query; up to 3 attempts", tier="thorough", op="configure")]
+    hs.append(ctl_h("c09::pages_p0_ack_required", "Sign::send_pages with an empty page list against a sign that is conformant except that its answer to EVERY receive request (first attempt and retries) is arbitrary: unless that answer is the matching acknowledgement from the own address, nothing further (chunk, count, query) is sent", p=0, op="send_pages", pages=0))
     for nm, p, ilen, w, h, tier in [
         ("pages_p0", 0, 16, 12, 8, "quick"),
         ("pages_p1_16_a1", 1, 16, 12, 8, "quick"),
